@@ -15,12 +15,28 @@ def load(prop):
 
 
 def match(viol, findings):
-    """A violation is attributed to a finding iff every key of finding['match'] equals the violation's
-    signature entry (signatures are computed by the property module from the *case structure and the
-    observed wrong behaviour*, see each module's `signature`)."""
+    """A violation is attributed to a finding iff the violation's signature (computed by the property module from
+    the *case structure and the observed wrong behaviour*) satisfies every clause of finding['match']:
+    kind_in / exc_in: membership; has_feature: structural feature present; any other key: equality."""
     sig = viol.get('sig') or {}
     for f in findings:
         m = f.get('match') or {}
-        if m and all(sig.get(k) == v for k, v in m.items()):
+        if not m:
+            continue
+        ok = True
+        for k, v in m.items():
+            if k == 'kind_in':
+                ok = sig.get('kind') in v
+            elif k == 'exc_in':
+                ok = sig.get('exc') in v
+            elif k == 'has_feature':
+                ok = v in (sig.get('features') or [])
+            elif k == 'frame_contains':
+                ok = v in (sig.get('frame') or '')
+            else:
+                ok = sig.get(k) == v
+            if not ok:
+                break
+        if ok:
             return f
     return None
